@@ -24,7 +24,7 @@ RULE = ('cases = (a, b, strict, presorted, b-field permutation, row container ty
         'duplicates exist on one side only. Distinct = SHA-1 of the case.')
 ASSUMPTIONS = ['rectangular tables with hashable cells (property domain)',
                'row equality is Python == on row tuples (1 == 1.0 == True)']
-REQUIRED = ['views-read-twice', 'inputs-are-petl-views', 'data-row-equal-to-a-header', 'dup-only-in-a', 'dup-only-in-b', 'dup-both-different-counts', 'b-exhausted-first', 'a-exhausted-first',
+REQUIRED = ['views-read-twice', 'field-labels-that-are-valid-positions', 'inputs-are-petl-views', 'data-row-equal-to-a-header', 'dup-only-in-a', 'dup-only-in-b', 'dup-both-different-counts', 'b-exhausted-first', 'a-exhausted-first',
             'strict-with-dup-in-a', 'a-empty', 'b-empty', 'presorted', 'permuted-b-header', 'list-vs-tuple-rows']
 EXHAUSTIVE = {'quick': False, 'thorough': False}
 
@@ -58,10 +58,19 @@ def cases(ctx):
                 return [list(rng.choice(rowpool)) for _ in range(n)]
             return [[rng.choice(pool) for _ in range(nf)] for _ in range(n)]
         hdr = gen.fieldnames(nf)
+        intlabels = False
+        if nf >= 2 and rng.random() < 0.1:
+            # field labels that are ints / bools and would be valid positions, but not their own (what pivot or transpose produce):
+            # complement / intersection / diff ignore field names altogether
+            intlabels = True
+            lab = list(range(nf))
+            while lab == list(range(nf)):
+                rng.shuffle(lab)
+            hdr = rng.choice([lab, ['k'] + list(range(nf - 1))] + ([['k'] + [False, True][:nf - 1]] if nf <= 3 else []))
         a = [list(hdr)] + rows(rng.choice([0, 1, 2, 3, 4, 5, 6]))
         b = [list(hdr)] + rows(rng.choice([0, 1, 2, 3, 4, 5, 6]))
         perm = None
-        if nf > 1 and rng.random() < 0.4:
+        if nf > 1 and rng.random() < 0.4 and not intlabels:
             perm = list(range(nf))
             rng.shuffle(perm)
         # a data row equal to a header row (a repeated header line in concatenated files) is a row like any other
@@ -91,7 +100,7 @@ def cases(ctx):
                'tuples': (rng.random() < 0.5, rng.random() < 0.5), 'wrap': wrap,
                'buffersize': None if (presorted or rng.random() < 0.88) else rng.choice([1, 1, 2, 3]),
                'method': rng.random() < 0.2,       # etl.wrap(a).complement(b) etc.: the fluent form is the same operator
-               'widths_differ': widths_differ}
+               'widths_differ': widths_differ, 'intlabels': intlabels}
 
 
 def _cnt(rows):
@@ -256,7 +265,9 @@ def judge(case, ctx):
     perm = case['perm']
     if case.get('widths_differ'):
         ctx.seen('tables-of-different-widths')
-    if not case['presorted'] and not case.get('widths_differ'):
+    if case.get('intlabels'):
+        ctx.seen('field-labels-that-are-valid-positions')      # (the record* forms align by name, where an int is a position: not judged)
+    if not case['presorted'] and not case.get('widths_differ') and not case.get('intlabels'):
         a = _container(a0, case['tuples'][0], wa)
         bp = b0
         if perm is not None:
